@@ -773,7 +773,7 @@ def refval_is(ex, st, v, r):
 @specfunc('is_varies_class')
 def is_varies_class(ex, st, obj):
     cid = ex.H(st, 'cls')[ex.term(obj, 'R')]
-    ids = [i for n, i in ex.world.class_ids.items() if n in ('Field', 'Component', 'SubComponent', 'CanBeVaries')]
+    ids = [i for n, i in ex.world.class_ids.items() if n in ('Field', 'Component', 'SubComponent', 'CanBeVaries', 'SupportComplexDataType')]
     return SV(z3.Or(*[cid == i for i in ids]) if ids else z3.BoolVal(False), BOOL)
 
 
@@ -826,3 +826,58 @@ def tuple_first(ex, st, lst, k):
     """first item of the k-th tuple of a list of tuples, as a reference"""
     t = ex.H(st, 'La.R')[ex.term(lst, 'R')][ex.term(k, 'I')]
     return SV(Val.addr(ex.H(st, 'La.V')[t][0]), ObjT('Element'))
+
+
+@specfunc('nonempty_dict')
+def nonempty_dict(ex, st, d):
+    """truthiness of a dict reference (None is falsy, an empty dict is falsy)"""
+    a = ex.term(d, 'R')
+    # the engine's own measure of a dict's size (uninterpreted `dsize` of the key set): the same term the code path yields
+    return SV(z3.And(a != 0, ex.uf('dsize', z3.ArraySort(StrS, BoolS), IntS)(ex.H(st, 'Dd')[a]) > 0), BOOL)
+
+
+@specfunc('is_unknown_of')
+def is_unknown_of(ex, st, el):
+    """what el.is_unknown() answers: Field / Component / SubComponent compare the name with the datatype, every other
+    element is unknown when it has no name (the three definitions in core.py, proved against this function)"""
+    a = ex.term(el, 'R')
+    cid = ex.H(st, 'cls')[a]
+    ids = [i for n, i in ex.world.class_ids.items() if n in ('Field', 'Component', 'SubComponent', 'SupportComplexDataType', 'CanBeVaries')]
+    name = ex.H(st, ex.world.field_key('Element', 'name'))[a]
+    dt = ex.H(st, ex.world.field_key('Element', '_datatype'))[a]
+    return SV(z3.If(z3.Or(*[cid == i for i in ids]), name == dt, name == VNONE), BOOL)
+
+
+@specfunc('new:ErrorsAndWarnings')
+def new_errors_and_warnings(ex, st, cls, args, kwargs, fr):
+    """the namedtuple (is_valid, errors, warnings): a plain 3-tuple"""
+    vals = list(args) + [kwargs[k] for k in ('is_valid', 'errors', 'warnings')[len(args):]]
+    yield st, SV(None, Ty('pytuple'), tuple(vals))
+
+
+def _report(ex, st, r):
+    if r.is_py and isinstance(r.py, tuple):
+        return r.py
+    return None
+
+
+@specfunc('report_is_valid')
+def report_is_valid(ex, st, r):
+    t = _report(ex, st, r)
+    if t is not None:
+        c = ex.truth(st, t[0])
+        return SV(c if not isinstance(c, bool) else z3.BoolVal(c), BOOL)
+    if r.is_py:
+        return SV(z3.FreshConst(BoolS, 'not_a_report'), BOOL)      # (the clause guards this case away)
+    return SV(Val.bval(ex.H(st, 'La.V')[ex.term(r, 'R')][0]), BOOL)
+
+
+@specfunc('report_error_count')
+def report_error_count(ex, st, r):
+    t = _report(ex, st, r)
+    if t is not None:
+        return SV(ex.H(st, 'Ll')[ex.term(t[1], 'R')], INT)
+    if r.is_py:
+        return SV(z3.FreshConst(IntS, 'not_a_report'), INT)
+    lst = Val.addr(ex.H(st, 'La.V')[ex.term(r, 'R')][1])
+    return SV(ex.H(st, 'Ll')[lst], INT)
